@@ -107,7 +107,7 @@ def gen_plan(tape, cfg):
     n = tape.rint(3, 12, "nops")
     for j in range(n):
         last = (j == n - 1)
-        k = tape.weighted([(4, "assert"), (2, "push"), (2, "pop"), (1, "check"), (4, "optimize")], "op")
+        k = tape.weighted([(4, "assert"), (2, "push"), (2, "pop"), (1, "check"), (4, "optimize"), (2, "is_sat")], "op")
         if last and nopt == 0:
             k = "optimize"
         if k == "assert":
@@ -126,6 +126,9 @@ def gen_plan(tape, cfg):
                 depth -= lv
         elif k == "check":
             ops.append({"op": "check"})
+        elif k == "is_sat":
+            # a one-shot query leaves a pop pending: the optimiser's own pushes must cope with it
+            ops.append({"op": "is_sat", "f": bp.gen_term(tape, bp.BOOL, 1, ctx)})
         else:
             nopt += 1
             mode = tape.weighted([(4, "single"), (2, "boxed"), (3, "lex"), (3, "pareto")], "mode")
@@ -209,8 +212,8 @@ def describe(plan):
            (plan["symbols"], plan["int_ranges"], plan["mixin"], plan["policy"],
             plan["assumption_style"], plan["faults"])]
     for o in plan["ops"]:
-        if o["op"] == "assert":
-            out.append("assert " + bp.pretty(o["f"]))
+        if o["op"] in ("assert", "is_sat"):
+            out.append(o["op"] + " " + bp.pretty(o["f"]))
         elif o["op"] in ("push", "pop"):
             out.append("%s %d" % (o["op"], o["n"]))
         elif o["op"] == "optimize":
@@ -404,6 +407,18 @@ def execute(plan, tape):
                 continue
             api("pop", solver.pop, nlev)
             model.pop(nlev)
+        elif k == "is_sat":
+            try:
+                got = api("is_sat", solver.is_sat, bp.build(o["f"], env), allowed=(SolverReturnedUnknownResultError,))
+            except SolverReturnedUnknownResultError:
+                faulted = True
+                break
+            want = len(bp.models(live_bps() + [o["f"]], symbols, int_ranges=ranges)) > 0
+            if got != want:
+                raise Violation("C18:verdict", "is_sat() = %s, truth %s" % (got, want))
+            probe("oneshot_before_next_op")
+            trace.append(("is_sat", got))
+            continue            # no read of .assertions: the pop stays pending for the next operation
         elif k == "check":
             try:
                 got = api("solve", solver.solve, allowed=(SolverReturnedUnknownResultError,))
